@@ -5,6 +5,8 @@ import (
 	"strings"
 
 	"github.com/goplus/xgo/tpl/ast"
+	"github.com/goplus/xgo/tpl/parser"
+	"github.com/goplus/xgo/tpl/token"
 	"pgregory.net/rapid"
 )
 
@@ -178,8 +180,10 @@ type GrammarConfig struct {
 	MinRules, MaxRules int
 	MaxDepth           int                      // operator depth of each rule expression
 	Lits               *rapid.Generator[string] // nil = ValidLit()
+	Classes            []string                 // token classes used as Ident leaves; nil = TokenClasses
 	Closed             bool                     // true: distinct rule names, every Ident is a defined rule or a token class
 	RetProcs           bool                     // attach "=> { ... }" blocks to some rules
+	OpRoot             bool                     // every rule expression has an operator at its root (depth >= 1)
 }
 
 var ruleNames = []string{"doc", "expr", "term", "factor", "item", "list", "stmt", "atom", "r1", "r2", "r3", "r4", "é", "_x"}
@@ -211,14 +215,27 @@ func GrammarOf(cfg GrammarConfig) *rapid.Generator[Grammar] {
 			}
 		}
 		idents := append(append([]string{}, names...), names...) // rule references twice as likely
-		idents = append(idents, TokenClasses...)
+		if cfg.Classes != nil {
+			idents = append(idents, cfg.Classes...)
+		} else {
+			idents = append(idents, TokenClasses...)
+		}
 		if !cfg.Closed {
 			idents = append(idents, "undefined", "Int", "x")
 		}
 		ec := ExprConfig{Idents: idents, Lits: lits, MaxDepth: cfg.MaxDepth}
 		g := Grammar{Rules: make([]Rule, n)}
 		for i := range g.Rules {
-			r := Rule{Name: names[i], Expr: DrawExpr(t, ec, rapid.IntRange(0, cfg.MaxDepth).Draw(t, "depth"))}
+			var r Rule
+			if cfg.OpRoot {
+				lo := 1
+				if i == 0 && cfg.MaxDepth >= 2 {
+					lo = 2 // the document rule mixes operators
+				}
+				r = Rule{Name: names[i], Expr: DrawOp(t, ec, rapid.IntRange(lo, cfg.MaxDepth).Draw(t, "depth"))}
+			} else {
+				r = Rule{Name: names[i], Expr: DrawExpr(t, ec, rapid.IntRange(0, cfg.MaxDepth).Draw(t, "depth"))}
+			}
 			if cfg.RetProcs && rapid.IntRange(0, 3).Draw(t, "ret") == 0 {
 				r.RetProc = rapid.SampledFrom(retProcBodies).Draw(t, "body")
 			}
@@ -260,6 +277,22 @@ func (g Grammar) Source() string {
 		b.WriteString("\n")
 	}
 	return b.String()
+}
+
+// ParseGrammar reads grammar text back into a Grammar with the repository's TPL parser (for
+// hand-written cases and replays; generated cases carry their Grammar already).
+func ParseGrammar(src string) (Grammar, error) {
+	f, err := parser.ParseFile(token.NewFileSet(), "g.tpl", []byte(src), nil)
+	if err != nil {
+		return Grammar{}, err
+	}
+	var g Grammar
+	for _, d := range f.Decls {
+		if r, ok := d.(*ast.Rule); ok {
+			g.Rules = append(g.Rules, Rule{Name: r.Name.Name, Expr: r.Expr})
+		}
+	}
+	return g, nil
 }
 
 // ---- malformed mutants -----------------------------------------------------------------------
